@@ -6,6 +6,7 @@
    proofs in TM.LoopDeviceLemmas).  The byte-level form is
    C10_every_write_keeps_the_device_in_step (Properties/C10.v). *)
 From TM Require Import Base Mapper Monitors Trace MapperInv MapperProps.
+From TM Require MonitorsSilent.
 From TM Require Loop LoopSpec LoopDevice LoopDeviceLemmas.
 
 (* For EVERY key classification, EVERY accepted layout and EVERY finite history
@@ -30,6 +31,29 @@ Example C01_example :
   for_layout_ok L = true /\ phys_of h = [] /\ held_all ia L h = []
   /\ held_all ia L (firstn 2 h) = [42%N; 105%N].
 Proof. vm_compute. repeat split; reflexivity. Qed.
+
+(* The extracted step checker Monitors.check_step (applied by the mapper engine
+   to the outputs of the REAL mapper on every explored transition: specification
+   state before and after, keys physically held and keys held on the virtual
+   keyboard before the step, the input, the observed events; its clause K_C01 -
+   nothing physically held after the step, something held on the virtual
+   keyboard - is reported as C01) never fires on the model: for EVERY
+   classification, EVERY accepted layout, EVERY history h and EVERY next input
+   i, applied to the model's own events for i it returns no clause at all, in
+   particular not K_C01.  A run on which it fires: MonitorsSilent.check_step_fires. *)
+Theorem C01_checker_silent_on_model :
+  forall (is_action : key -> bool) (L : layout) (h : list input) (i : input),
+    for_layout_ok L = true ->
+    let chk := check_step is_action L (state_of is_action L h) (state_of is_action L (h ++ [i]))
+                 (phys_of h) (held_all is_action L h) i
+                 (fst (fst (mstep is_action L (state_of is_action L h) i))) in
+    chk = [] /\ ~ In K_C01 chk.
+Proof.
+  intros a L h i H. cbn zeta. split.
+  - apply MonitorsSilent.check_step_silent. apply for_layout_ok_wf. exact H.
+  - apply MonitorsSilent.check_step_clause_silent. apply for_layout_ok_wf. exact H.
+Qed.
+Print Assumptions C01_checker_silent_on_model.
 
 (* ---------- at the device: through the event loop ---------- *)
 
